@@ -86,7 +86,8 @@ class Sim:
             self.trees[int(t[1])] = {}; self.base[int(t[1])] = {}; self.tbf[int(t[1])] = int(t[3]) or 16
             self.mods[int(t[1])] = set(); self.hchg[int(t[1])] = False; self.lasth[int(t[1])] = 0
             return
-        if op in ("ins", "del", "get", "size", "height", "iter", "seek", "clone", "dirty", "mkroot", "cursor", "diff", "difflinks"):
+        if op in ("ins", "del", "get", "size", "height", "iter", "seek", "clone", "dirty", "mkroot", "cursor", "diff", "difflinks",
+                  "diffstop", "difffail", "diffcur", "iterstop", "seekstop"):
             tid = int(t[1]); d = self.trees.get(tid)
             if tid not in self.trees:
                 return
@@ -132,6 +133,11 @@ class Sim:
                 self.fail("height", idx, "height failed")
         elif op == "iter":
             self.expect("iter", idx, ob, "ok", show_list(self.items(d)))
+        elif op == "iterstop":
+            self.expect("iter", idx, ob, "ok", show_list(self.items(d)[:int(t[2]) + 1]))
+        elif op == "seekstop":
+            k = t[2]
+            self.expect("seek", idx, ob, "ok", show_list([kv for kv in self.items(d) if key_sort(kv[0]) >= key_sort(k)][:int(t[3]) + 1]))
         elif op == "seek":
             k = t[2]
             self.expect("seek", idx, ob, "ok", show_list([kv for kv in self.items(d) if key_sort(kv[0]) >= key_sort(k)]))
@@ -219,7 +225,7 @@ class Sim:
             elif op == "cbwd":
                 pos = pos - 1 if pos - 1 >= 0 else None
             c[1] = pos
-        elif op == "diff":
+        elif op in ("diff", "diffstop", "difffail", "diffcur"):
             old = None if t[2] == "-" else self.trees.get(int(t[2]))
             if t[2] != "-" and old is None:
                 return
@@ -232,8 +238,17 @@ class Sim:
                     exp.append("-%s=nil/%s" % (k, old[k]))
                 elif old[k] != d[k]:
                     exp.append("~%s=%s/%s" % (k, d[k], old[k]))
-            self.expect("diff", idx, ob, "ok", "d:" + ";".join(exp))
-            self.facts["diffs"].append((idx, "diff", tid, t[2], ob))
+            if op == "diffstop":
+                self.expect("diff", idx, ob, "ok", "d:" + ";".join(exp[:int(t[3]) + 1]))
+            elif op == "difffail":
+                if int(t[3]) < len(exp):
+                    self.expect("diff", idx, ob, "err")
+                else:
+                    self.expect("diff", idx, ob, "ok", "d:" + ";".join(exp))
+            else:
+                self.expect("diff", idx, ob, "ok", "d:" + ";".join(exp))
+            if op == "diff":
+                self.facts["diffs"].append((idx, "diff", tid, t[2], ob))
         elif op == "difflinks":
             self.expect("difflinks", idx, ob, "ok")
             self.tree_root[(tid, idx)] = self.cur_root.get(tid)
